@@ -5,7 +5,8 @@ spec: Calendar.tla, Accounts.tla, Strings.tla, Numeric.tla (operators transcribe
 
 legs: MC   TLC checks the laws of the statement on the model: MC_Calendar (every date of 1900..2100, all units,
            strides, origins; quick strides through the range), MC_Accounts, MC_Strings, MC_Numeric;
-           non-vacuity: MC_Calendar_shipped (date_bin as shipped) must violate BinInv
+           MC_Calendar_walk: date_bin as the code computes it (walk from the origin) satisfies the same laws;
+           non-vacuity: MC_Calendar_shipped (the walk before repair 5c4d63a, `n >= source`) must violate BinInv
       S2C  Gen_C18 emits spec-derived boundary cases with the value the spec demands; every case is evaluated
            THROUGH BQL (SELECT f(consts, x0, ..) FROM #cases over a harness table, one query per job) and compared
       C2S  the recorder evaluates every function form through BQL over exhaustive harness tables (all dates of
@@ -140,6 +141,7 @@ FORMS = {
     'sub_date_ival': (['date'], lambda c: 'x0 - %s' % ivl(c[0], c[1]), 'd'),
     'add_date_ival2': (['date'], lambda c: 'x0 + (%s + %s)' % (ivl(c[0], c[1]), ivl(c[2], c[3])), 'd'),
     'date_bin': (['date'], lambda c: 'date_bin(%s, x0, %s)' % (ivl(c[0], c[1]), qd(c[2])), 'd'),
+    'date_bin_s': (['date'], lambda c: 'date_bin(%s, x0, %s)' % (qs('%d %s' % (c[0], c[1])), qd(c[2])), 'd'),
     'date_bin_col': (['date', 'date'], lambda c: 'date_bin(%s, x0, x1)' % ivl(c[0], c[1]), 'd'),
     'date_ymd': (['int', 'int', 'int'], 'date(x0, x1, x2)', 'd'),
     'root': (['str', 'int'], 'root(x0, x1)', 's'),
@@ -458,6 +460,9 @@ def calendar_jobs(ctx, ds):
     for st in strides:
         for org in origins:
             jobs.append(('date_bin', st + [org], one(ds['window'])))
+    # the overload that takes the stride as a text (valid interval texts only)
+    for st in ([1, 'month'], [10, 'day'], [1, 'year'])[:ctx.pick(2, 3)]:
+        jobs.append(('date_bin_s', st + [origins[1]], one(ds['window'])))
     for st in ([1, 'month'], [3, 'month'], [1, 'year'], [7, 'day'])[:ctx.pick(2, 4)]:
         rows = []
         for o in ds['window']:
@@ -782,6 +787,7 @@ def _run_legs(ctx, pool, mcpool, want, state):
         mcs.append((mcpool.submit('MC_Calendar', ctx.pick('MC_Calendar_quick.cfg', 'MC_Calendar.cfg'), 'MC',
                                 workers=ctx.pick(6, 12)), None))
         mcs.append((mcpool.submit('MC_Calendar', 'MC_Calendar_shipped.cfg', 'MC-nonvacuity', workers=1), 'BinInv'))
+        mcs.append((mcpool.submit('MC_Calendar', 'MC_Calendar_walk.cfg', 'MC', workers=3), None))
         mcs.append((mcpool.submit('MC_Calendar', ctx.pick('MC_Calendar_binq.cfg', 'MC_Calendar_bin.cfg'), 'MC', workers=ctx.pick(3, 6)), None))
         mcs.append((mcpool.submit('MC_Strings', ctx.pick('MC_Strings_quick.cfg', 'MC_Strings.cfg'), 'MC', workers=3), None))
         mcs.append((mcpool.submit('MC_Accounts', 'MC_Accounts.cfg', 'MC', workers=3), None))
